@@ -52,9 +52,9 @@ def readIdent (bs : Bytes) : Option (Ident × Nat) :=
       | [] => none
 
 inductive Tree
-  | prim (id : Bytes) (content : Bytes)
-  | cons (id : Bytes) (indef : Bool) (kids : List Tree)
-deriving Repr, Inhabited
+  | prim (id : Ident) (content : Bytes)
+  | cons (id : Ident) (indef : Bool) (kids : List Tree)
+deriving Repr
 
 inductive M | ber | cer | der
 deriving DecidableEq, Repr
@@ -72,21 +72,20 @@ def parseValue (m : M) : Nat → Bytes → Option (Tree × Bytes)
     | none => none
     | some (id, k) =>
       if isEocIdent id then none else
-      let idOctets := bs.take k
       match readLen m.isBer (bs.drop k) with
       | none => none
       | some (some n, kl) =>
         let body := bs.drop (k + kl)
         if body.length < n then none
-        else if !id.constructed then some (.prim idOctets (body.take n), body.drop n)
+        else if !id.constructed then some (.prim id (body.take n), body.drop n)
         else if m == .cer then none
         else match parseAll m fuel (body.take n) with
-          | some kids => some (.cons idOctets false kids, body.drop n)
+          | some kids => some (.cons id false kids, body.drop n)
           | none => none
       | some (none, kl) =>
         if !id.constructed || m == .der then none
         else match parseUntilEoc m fuel (bs.drop (k + kl)) with
-          | some (kids, rest) => some (.cons idOctets true kids, rest)
+          | some (kids, rest) => some (.cons id true kids, rest)
           | none => none
 
 /-- the whole of `bs` is a sequence of values -/
@@ -120,14 +119,15 @@ end
 
 /-! ## octet strings (X.690 8.7, 9.2, 10.2) as trees -/
 
-/-- content of a tree made of OCTET STRING values only (identifier `idp` primitive / `idc` constructed) -/
-def osContent (idp idc : Bytes) : Nat → Tree → Option Bytes
-  | _, .prim id c => if id == idp then some c else none
+/-- content of a tree made of string values only: the outermost value has universal tag `num`,
+    everything nested is OCTET STRING (universal 4) -/
+def osContent (num : Nat) : Nat → Tree → Option Bytes
+  | _, .prim id c => if id.cls == 0 && id.num == num then some c else none
   | 0, .cons _ _ _ => none
   | fuel + 1, .cons id _ kids =>
-    if id != idc then none
+    if !(id.cls == 0 && id.num == num) then none
     else kids.foldl (fun acc k =>
-      match acc, osContent [0x04] [0x24] fuel k with
+      match acc, osContent 4 fuel k with
       | some a, some c => some (a ++ c)
       | _, _ => none) (some [])
 
